@@ -110,6 +110,8 @@ class WriterEx(Extractor):
         return super().binop(op, a, b, node)
 
     def on_call(self, node, fname, args, kwargs, env):
+        if fname and fname.endswith(".split") and isinstance(self.facts.get(fname[:-6]), str) and len(args) == 1 and isinstance(args[0], str):
+            return self.facts[fname[:-6]].split(args[0])
         if fname == "len" and isinstance(args[0], list):
             return self.ctx.const(len(args[0]))
         if fname == "sum" and isinstance(args[0], list):
@@ -189,7 +191,8 @@ def writer_integers(prog, topo):
         "self.nx": xs[-1],
         "self.ny": ny_guards,
         "self.equilibrium.double_null_type": topo.double_null_type if topo.double_null_type else "none",
-        "eq_region0.separatrix_radial_index": ctx.const(1),
+        "eq_region0.separatrix_radial_index": ctx.const(getattr(topo, "sep_index", 1)),
+        "eq_region0.kind": regs[order[0]]["kind"],
     }
     ex = WriterEx(ctx, mod, facts)
     env = {}
@@ -225,6 +228,7 @@ def run(rep, tier):
         rep.rule(r, t)
     topos = tables.all_topologies(prog)
     topos.append(torpex_topology(prog))
+    topos.extend(circular_topologies(prog))
     rep.analysed_add("topology seeds", [t.name for t in topos])
     for t in topos:
         r1_r2(rep, t)
@@ -279,6 +283,8 @@ def r1_r2(rep, t):
         ok = i == j and i < len(sa) and j < len(sb) and sa[i] == sb[j]
         rep.ob("R1", "%s: %s[%d] -> %s[%d] joins the same radial segment (same name => same nx and psi grid)" % (t.name, a, i, b, j), ok, site,
                "%s vs %s" % (sa[i] if i < len(sa) else None, sb[j] if j < len(sb) else None), key=key)
+        if t.name.startswith("CIRC/"):
+            continue  # documented: kind X.X makes the region y-periodic, there is no X-point to pin
         # R2 pins
         xe = t.regions[a].get("xpoints_at_end")
         xs = t.regions[b].get("xpoints_at_start")
@@ -290,6 +296,8 @@ def r1_r2(rep, t):
     rep.ob("R1", "%s: all regions have the same number of radial segments" % t.name, len(lens) == 1, site, str(lens), key="%s/nseg" % t.name)
     # kinds vs ends
     for name, r in t.regions.items():
+        if t.name.startswith("CIRC/"):
+            break  # checked in R4 (kind <-> periodic connection)
         k0, k1 = r["kind"].split(".")
         nseg = len(r["segments"])
         has_low = [(name, i) in low for i in range(nseg)]
@@ -312,12 +320,80 @@ def r1_r2(rep, t):
                (rev if want_rev else plain), site, repr(pts), key="%s/points/%s" % (t.name, name))
 
 
+def circular_topologies(prog):
+    """the two one-region topologies of the circular case, read from its region builder: a
+    y-periodic core (kind X.X, connected to itself) and a limiter SOL (kind wall.wall)"""
+    mod = prog.module("hypnotoad/cases/circular.py")
+    f = mod.funcs.get("CircularEquilibrium.makeRegion")
+    init = mod.funcs.get("CircularEquilibrium.__init__")
+    if f is None or init is None:
+        raise AnalysisError("circular region builder not found")
+    out = []
+    for limiter in (False, True):
+        kind = sep = None
+        for n in walk_own(f.node):
+            if isinstance(n, ast.If) and T(mod, n.test) == "self.user_options.limiter":
+                arm = n.body if limiter else n.orelse
+                for s in arm:
+                    if isinstance(s, ast.Assign) and isinstance(s.targets[0], ast.Name) and s.targets[0].id == "kind" and isinstance(s.value, ast.Constant):
+                        kind = s.value.value
+                    if isinstance(s, ast.Assign) and isinstance(s.targets[0], ast.Attribute) and s.targets[0].attr == "separatrix_radial_index":
+                        v = s.value
+                        sep = -v.operand.value if isinstance(v, ast.UnaryOp) else v.value
+        conns = []
+        for n in walk_own(init.node):
+            if isinstance(n, ast.If) and T(mod, n.test) == "self.user_options.limiter":
+                arm = n.body if limiter else n.orelse
+                for s in arm:
+                    for c in ast.walk(s):
+                        if isinstance(c, ast.Call) and _dotted(c.func) == "self.makeConnection" and all(isinstance(a, ast.Constant) for a in c.args):
+                            conns.append(tuple(a.value for a in c.args))
+        if kind is None or sep is None:
+            raise AnalysisError("circular kind / separatrix_radial_index not found for limiter=%s" % limiter)
+        regions = {"circular": {"segments": ["circular_seg"], "kind": kind}}
+        t = tables.Topology("CIRC/" + ("limiter" if limiter else "core"), {"nx": 0}, regions, {}, {"circular_seg": {}}, conns, ["circular"], None, [])
+        t.ctx = Context()
+        t.sep_index = sep
+        out.append(t)
+    return out
+
+
+def r4_one_region(prog, rep, t, ctx, ints, facts, site):
+    """no X-point: BOUT++ sees one block in y; closed surfaces (periodic) iff ixseps == nx"""
+    nys = facts["self.y_regions_noguards"]
+    xs = facts["self.x_startinds"]
+    eq = lambda a, b: (a - b).is_zero()
+    rep.ob("R4", "%s: jyseps1_1 == -1 (no lower inner leg)" % t.name, eq(ints["jyseps1_1"], ctx.const(-1)), site, ints["jyseps1_1"].show(), key="%s/one/jyseps1_1" % t.name)
+    rep.ob("R4", "%s: jyseps2_1 == jyseps1_2 (no upper legs)" % t.name, eq(ints["jyseps2_1"], ints["jyseps1_2"]), site,
+           "%s vs %s" % (ints["jyseps2_1"].show(60), ints["jyseps1_2"].show(60)), key="%s/one/no-upper-legs" % t.name)
+    d = ints["jyseps2_2"] + 1 - nys[0]
+    ok, why = _nonneg_with_floor(ctx, d)
+    rep.ob("R4", "%s: jyseps2_2 >= ny-1 (no lower outer leg) for all sizes" % t.name, ok is True, site, "%s : %s" % (d.show(80), why), key="%s/one/jyseps2_2" % t.name)
+    for lo, hi in (("jyseps1_1", "jyseps2_1"), ("jyseps1_2", "jyseps2_2")):
+        d = ints[hi] - ints[lo]
+        ok, why = _nonneg_with_floor(ctx, d)
+        rep.ob("R4", "%s: %s <= %s for all sizes" % (t.name, lo, hi), ok is True, site, "%s : %s" % (d.show(80), why), key="%s/order/%s<=%s" % (t.name, lo, hi))
+    periodic = any(c[0] == c[2] for c in t.connections)
+    for nm in ("ixseps1", "ixseps2"):
+        if periodic:
+            ok = eq(ints[nm], xs[-1])
+        else:
+            c = ints[nm].as_const()
+            ok = c is not None and c <= 0  # no x index lies inside the separatrix
+        rep.ob("R4", "%s: %s %s (%s)" % (t.name, nm, "== nx" if periodic else "<= 0", "all surfaces closed: the region is y-periodic" if periodic else "all surfaces open: limiter at both ends"),
+               ok, site, ints[nm].show(60), key="%s/one/%s" % (t.name, nm))
+    kind = next(iter(t.regions.values()))["kind"]
+    rep.ob("R4", "%s: the region kind matches its connection (periodic <-> X.X, open <-> wall.wall)" % t.name, (kind == "X.X") == periodic and (kind == "wall.wall") == (not periodic), site, kind, key="%s/one/kind" % t.name)
+
+
 def r4(prog, rep, t):
     site = MESH + " (BoutMesh.writeGridfile)"
     ctx, ints, err, facts = writer_integers(prog, t)
     if ints is None:
         rep.ob("R4", "%s: writer produces topology integers" % t.name, False, site, err, key="%s/ints" % t.name)
         return
+    if len(t.order) == 1:
+        return r4_one_region(prog, rep, t, ctx, ints, facts, site)
     order = t.order
     nys = facts["self.y_regions_noguards"]
     xs = facts["self.x_startinds"]
@@ -579,6 +655,22 @@ def r5_r6(prog, rep, topos):
                     tnames.add(st.targets[0].id)
                     local_defs.append(st)
                     changed = True
+    def _only_name_assigns(st):
+        leaves = []
+        for b in (st.body, st.orelse):
+            for x in b:
+                if isinstance(x, ast.If):
+                    if not _only_name_assigns(x):
+                        return False
+                elif not (isinstance(x, ast.Assign) and isinstance(x.targets[0], ast.Name) and isinstance(x.value, (ast.Name, ast.Constant, ast.BinOp, ast.IfExp))):
+                    return False
+        return True
+    for st in body:
+        if isinstance(st, ast.If) and _only_name_assigns(st):
+            assigned = {x.targets[0].id for x in ast.walk(st) if isinstance(x, ast.Assign) and isinstance(x.targets[0], ast.Name)}
+            if not (assigned & {"jyseps1_1", "jyseps2_1", "jyseps1_2", "jyseps2_2", "ny_inner", "ixseps1", "ixseps2"}):
+                tnames.update(assigned)
+                local_defs.append(st)
     local_defs.sort(key=lambda st: st.lineno)
     for n in ast.walk(w.node):
         if isinstance(n, ast.Subscript):
@@ -612,7 +704,7 @@ def r5_r6(prog, rep, topos):
         for st in local_defs:
             try:
                 ex.stmt(st, env)
-            except AlgError:
+            except (AlgError, PathRaises):
                 pass
         for node, e in targets:
             guard_if = _enclosing_if(w.node, node)
@@ -642,6 +734,9 @@ def r5_r6(prog, rep, topos):
                     continue
                 # must coincide with a with-guard region boundary or the first real cell of a region
                 ok = any((v - g).is_zero() for g in G) or any((v - g).is_zero() for g in first_real)
+                if not ok and role == "start" and isinstance(e, ast.Slice) and e.upper is None:
+                    # an open-ended slice that starts at or beyond the end of the array selects nothing
+                    ok = nonneg_for_positive_sizes(v - G[-1])[0] is True
                 if any(a.fname == "floor_half" for a in v.all_atoms()):
                     ok = False
                 which = "array %s" % T(mod, node.value)
